@@ -23,6 +23,7 @@ fixed("C02","panic/UnpackRRWithHeader(short RDLENGTH)/DS/.unpackStringHex","57c7
 fixed("C03","C03/IsDomainName-true-model-false/wire-length-256","f4d6b59","names of 256 and 257 wire octets were accepted by IsDomainName and packed by PackDomainName although UnpackDomainName rejects them (255-octet limit)")
 fixed("C03","C03/packer-accepts-non-fqdn/random-text","bb43edc","IsFqdn counted the backslashes before the final dot in runes: a multi-byte UTF-8 sequence in front of them flipped the parity, so names ending in an escaped dot were packed and some fully-qualified ones refused")
 fixed("C12","C12/datagram-real-reply-missed/undecodable-foreign-reply","dd8f6b7","a datagram with another ID whose body does not unpack (or whose TSIG does not verify) ended the client exchange with that error although the matching reply arrived right behind it: the skip loop broke on any error instead of on read errors only (also C12/datagram-no-deadline-error when only such replies arrive)")
+fixed("C13","C13/restart-while-shutdown-returns/second-server-does-not-answer/pc-sim/restart-while-shutdown-is-returning","4f66017","ShutdownContext closed `srv.PacketConn` - read without the lock, after the wait - when it was done: a Server started again (with another socket) as soon as its serve call had returned, while the Shutdown of the first run was still on its way out, had the socket of its second run closed by that Shutdown, and the field was read while the restart wrote it (also C13/packetconn-open-when-shutdown-returns/pc-sim/restart-*: the first run's own socket was left open in that case; found when the restart-while-Shutdown-is-returning scenario prompted by seed C13ab ran against the unchanged tree)")
 fixed("C10","C10/accepts-invalid/rrsig.Signature-halves-zero-padded/ECDSAP256SHA256","e8ee899","RRSIG.Verify and SIG.Verify split an ECDSA signature in the middle, whatever its length: the two integers of a valid signature, each with a zero octet in front (66 / 98 octets instead of the 64 / 96 of RFC 6605 s.4), verified - a change to the signature that does not make verification fail (also C18/accepts-altered/sig-halves-zero-padded/*; found when the length-changing signature alterations prompted by seed C10y were added)")
 fixed("C10","C10/sign-fails/MF/ECDSAP256SHA256","4efda5d","RRSIG.Sign and Verify rebuilt the owner of a wildcard directly below the root (owner `*.`, or any single-label name with Labels 0) as `*..`, which does not pack: Sign returned `bad rdata` for every RRset owned by `*.`, and an answer synthesised from the root wildcard never verified (also C10/reused-rrsig/sign-error/*; found when the C10 zones started to include the root and a TLD)")
 # ---- C16
